@@ -34,6 +34,7 @@ type Obligation struct {
 	Verdict string
 	Solver  string
 	Secs    float64
+	Wall    float64 // wall-clock time of all attempts on this obligation
 	Detail  string
 	Model   string
 	fc      *FuncCtx // the function context that generated it (replay)
